@@ -588,4 +588,62 @@ Proof.
     exists n, (x, y). repeat split; auto. unfold opairs. rewrite Hs. apply in_or_app. right.
     apply in_map_iff. exists (rc y, rc x). split; [|exact Hp]. cbn [fst snd]. now rewrite !ListFacts.rc_involutive.
 Qed.
+
+(* ---- payloads ---- *)
+Lemma fold_pay (ds : list pay) : forall d0, fold_left pay_reduce ds d0 = (fst d0, snd d0 ++ concat (map snd ds)).
+Proof.
+  induction ds as [|d ds IH]; intro d0; cbn [fold_left map concat]; [rewrite app_nil_r; now destruct d0|].
+  rewrite IH. unfold pay_reduce. cbn [fst snd]. now rewrite <- app_assoc.
+Qed.
+Lemma ids_of_entries es : (forall e, In e es -> In e T) ->
+  concat (map snd (map (e_data pay) es)) = map idf (map (e_key pay) es).
+Proof.
+  induction es as [|e es IH]; intro H; [reflexivity|]. cbn [map concat]. rewrite (Hdata e (H e (or_introl eq_refl))).
+  cbn [snd app]. f_equal. apply IH. intros e' He'. apply H. now right.
+Qed.
+Lemma node_colour_const n p : In n g -> mode <> 0%N -> p + K <= length (nd_seq n) ->
+  colf (cn st (kmer_at K (nd_seq n) p)) = colf (cn st (kmer_at K (nd_seq n) 0)).
+Proof.
+  intros Hn Hm. induction p as [|p IH]; intro Hp; [reflexivity|]. rewrite <- IH by lia.
+  destruct (inner_fm n p Hn ltac:(lia)) as [_ Hj]. unfold kjoin_f in Hj.
+  destruct (mode =? 0)%N eqn:E; [apply N.eqb_eq in E; contradiction|]. cbn [orb] in Hj. apply N.eqb_eq in Hj. now symmetry.
+Qed.
+
+Theorem graph_payload : PipelineCheck.payload_ok K st mode idf colf g.
+Proof.
+  intros n Hn.
+  destruct (compress_c01 pay pay_reduce join K st HK T Hok Hsym) as [g' [Hc' [_ [_ Hp]]]].
+  assert (g' = g) by congruence. subst g'. destruct (Hp n Hn) as (e0 & es & Hperm & Hin & Hd).
+  change (CompressSpec.node_keys pay K st n) with (node_kmers K st n) in Hperm.
+  change (CompressSpec.n_data pay n) with (snd n) in Hd.
+  assert (Hnd : snd n = (colf (e_key pay e0), map idf (map (e_key pay) (e0 :: es)))).
+  { rewrite Hd, fold_pay, (Hdata e0 (Hin e0 (or_introl eq_refl))). cbn [fst snd map app]. f_equal. f_equal.
+    apply ids_of_entries. intros e He. apply Hin. now right. }
+  assert (Hk0 : In (e_key pay e0) (node_kmers K st n)) by (eapply Permutation_in; [exact Hperm | now left]).
+  unfold nd_ids, nd_colour. rewrite Hnd. cbn [fst snd]. split; [|split].
+  - now apply Permutation_map.
+  - intros Hm k Hk. apply in_node_kmers in Hk as [q [Hq ->]]. apply in_node_kmers in Hk0 as [q0 [Hq0 ->]].
+    now rewrite (node_colour_const n q Hn Hm Hq), (node_colour_const n q0 Hn Hm Hq0).
+  - intros _. exists (e_key pay e0). auto.
+Qed.
+
+Theorem graph_unitig : unitig_graph K st mode colf g.
+Proof.
+  split; [exact HK|]. split; [|split; [exact graph_unbranched | exact graph_maximal]].
+  apply Forall_forall. intros n Hn. destruct (node_len_wf n Hn). split; assumption.
+Qed.
 End Graph.
+
+(* closed form *)
+Theorem compress_assembly_abs K st mode (T : table pay) (LS : list dna) (idf colf : dna -> N) g : 1 <= K ->
+  tbl_ok pay K st T -> links_ok pay st T LS ->
+  (forall ent, In ent T -> e_data pay ent = (colf (e_key pay ent), [idf (e_key pay ent)])) ->
+  compress_kmers pay pay_reduce (pay_join mode) st T = Some g ->
+  Permutation (graph_kmers K st g) (keys pay T) /\ (forall w, In w (graph_links K st g) <-> In w LS) /\
+  unitig_graph K st mode colf g /\ PipelineCheck.payload_ok K st mode idf colf g.
+Proof.
+  intros HK Hok HL Hd Hc. split; [exact (graph_kmers_keys K st mode HK T LS Hok HL g Hc)|].
+  split; [exact (graph_links_iff K st mode HK T LS Hok HL g Hc)|].
+  split; [exact (graph_unitig K st mode HK T LS idf colf Hok HL Hd g Hc) | exact (graph_payload K st mode HK T LS idf colf Hok HL Hd g Hc)].
+Qed.
+Print Assumptions compress_assembly_abs.
